@@ -2,7 +2,9 @@ package drv
 
 import (
 	"bytes"
+	"encoding/asn1"
 	"encoding/binary"
+	"math/big"
 	"math/rand"
 	"time"
 
@@ -121,18 +123,46 @@ func checkParsed(raw []byte) Event {
 		return err
 	})
 	crashed := []string{}
+	sigDerNote := ""
 	if out.Panic != "" || out.Timeout {
 		crashed = append(crashed, "abi.QuoteToProto")
 	}
 	for name, fn := range map[string]func() error{
 		"verify.RawTdxQuote":   func() error { return verify.RawTdxQuote(append([]byte{}, raw...), &verify.Options{}) },
 		"validate.RawTdxQuote": func() error { return validate.RawTdxQuote(append([]byte{}, raw...), &validate.Options{}) },
+		// the raw-signature serialiser on whatever the input offers: all of it, its first 64 bytes, the bytes where a quote carries its signature
+		"abi.SignatureToDER": func() error {
+			cands := [][]byte{nil, append([]byte{}, raw...)}
+			if len(raw) >= 64 {
+				cands = append(cands, append([]byte{}, raw[:64]...))
+			}
+			if len(raw) >= 632+64 {
+				cands = append(cands, append([]byte{}, raw[632:696]...))
+			}
+			for _, c := range cands {
+				der, err := abi.SignatureToDER(c)
+				if (err == nil) != (len(c) == 64) {
+					sigDerNote = "abi.SignatureToDER: result/error does not follow the 64-byte rule"
+				}
+				if err == nil {
+					var rs struct{ R, S *big.Int }
+					rest, uerr := asn1.Unmarshal(der, &rs)
+					if uerr != nil || len(rest) != 0 || rs.R.Cmp(new(big.Int).SetBytes(c[:32])) != 0 || rs.S.Cmp(new(big.Int).SetBytes(c[32:])) != 0 {
+						sigDerNote = "abi.SignatureToDER: the DER does not decode to the (r, s) given"
+					}
+				}
+			}
+			return nil
+		},
 	} {
 		if o := Guard(90*time.Second, fn); o.Panic != "" || o.Timeout {
 			crashed = append(crashed, name)
 		}
 	}
 	ev := Event{"ev": "Return", "result": out.Verdict(), "fieldsOk": false, "reserialOk": false, "prefixOk": false, "err": out.ErrText(), "crashed": crashed}
+	if sigDerNote != "" {
+		ev["notes"] = []string{sigDerNote}
+	}
 	if out.Verdict() != "accept" {
 		if out.Verdict() == "reject" {
 			ev["result"] = "reject"
@@ -275,7 +305,21 @@ func init() {
 		if err != nil {
 			return nil, err
 		}
-		return summarise("wire", rs, n), nil
+		s := summarise("wire", rs, n)
+		seen := map[string]bool{}
+		for _, r := range rs {
+			for _, ev := range r.Events {
+				if ns, ok := ev["notes"].([]string); ok {
+					for _, nn := range ns {
+						if !seen[nn] {
+							seen[nn] = true
+							s.Notes = append(s.Notes, nn)
+						}
+					}
+				}
+			}
+		}
+		return s, nil
 	}
 }
 
